@@ -122,3 +122,21 @@ CHECKS = {
   "technique": 'TLA+ reference editor model-checked for unbounded key sequences on a bounded buffer + trace validation of the real editor per key',
  },
 }
+
+# additions made after the third round of seeded changes (see DESIGN 11.6)
+_ADD = {
+ "C01": "Also: .blkw counts around and above 2^15 written in decimal and in seeded spellings (images recorded with zero runs squeezed, expanded again by Trace_Asm!WordsOf).",
+ "C04": "Also: a second .orig with the SAME value in any spelling, and a label defined twice at the same address (through .break / .orig).",
+ "C05": "Also: the line counter at its last values (65,532..65,535 preceding words) followed by each kind of statement.",
+ "C06": "The destination of compile is absent, shorter or much longer than the new object (the file must be exactly the object either way); program output is also compared with and without --minimal.",
+ "C07": "Also: the SMALLEST programs around each field boundary (label on the first, reference on the last statement and vice versa), images ending just below/at/above the top of memory, and a real `lace watch` session "
+        "whose successive texts fail in different stages and define the same labels again (each re-check's verdict must be that of Assembler!Accepts).",
+ "C08": "Also: destination names that are not valid UTF-8 or long with multi-byte characters, and a stdout that accepts no data (/dev/full): the outcome must still be one of the two the property allows.",
+ "C09": "Also at the command line: `lace run p` against `lace debug p --command <non-mutating script ending in quit>` with the program's input on stdin (Trace_Cli!DbgPairOk: same stdout, line breaks aside, and same exit status).",
+ "C14": "Transport events also count register dumps, so that a lost or invented command without echo is visible.",
+ "C15": "Malformed eval texts are derived systematically from well-formed instructions: one operand missing, one token too many (registers, literals, strings, labels, directives incl. .end), one operand of the wrong kind.",
+ "C16": "A session whose thread does not come back within a wall-clock limit is recorded as a `hang` event, which Trace_Debug classifies as no-progress (a spin where no hook fires is still a verdict, not a tool error).",
+ "C19": "Sequences also contain free-form sources: any subset of the shared names defined at random lines and referenced backward, forward, by themselves or without definition.",
+}
+for _k, _v in _ADD.items():
+    CHECKS[_k]["text"] += " " + _v
